@@ -86,6 +86,8 @@ func checkC09(c *Ctx) {
 	r.Rule("R09e", "TS route and OpenAPI operation use the method-overrides-service merge", 2)
 	r.Rule("R09f", "header literals carry all seven fields of the same header", 7)
 
+	c09HeaderScenarios(c)
+
 	ep, err := c.ServerRuntime()
 	if err != nil {
 		r.Unres("R09a", "emitted server runtime", "", err.Error())
@@ -520,4 +522,85 @@ func formatPublished(c *Ctx, conv *types.Func, t, f string) bool {
 		}
 	}
 	return true
+}
+
+// ---- concrete header scenarios (interpreted, not executed)
+
+func cHeader(name, typ, format string, required bool) *VStruct {
+	return cstruct("Header", map[string]Val{"GetName()": constStr(name), "GetType()": constStr(typ), "GetFormat()": constStr(format), "GetRequired()": VBool{B: required},
+		"GetDescription()": constStr(""), "GetExample()": constStr(""), "GetDeprecated()": VBool{}, "Required": VBool{B: required}})
+}
+
+func c09HeaderScenarios(c *Ctx) {
+	r := c.R
+	r.Rule("R09g", "the Go server's header getters list every declared header, also when a method header repeats a service header's name", 2)
+	r.Rule("R09h", "the TS server's per-route header configuration carries the declared format whatever the declared type is", 6)
+	c.W.Concrete = true
+	defer func() { c.W.Concrete = false }()
+	// R09g
+	if fn := c.P.Func(pkgHTTP, "Generator.generateHeaderGetters"); fn != nil {
+		in, out := cMessage("Req"), cMessage("Resp")
+		m1 := cMethod("GetItem", in, out, map[string]Val{"@GetMethodHeaders": VList{Key: "mh", Elems: []Val{cHeader("X-Request-ID", "string", "uuid", true), cHeader("X-Zq-Extra", "string", "", true)}}})
+		m2 := cMethod("ListItems", in, out, map[string]Val{"@GetMethodHeaders": VList{Key: "mh2", Elems: []Val{}}})
+		svc := cService("Items", m1, m2)
+		svc.Fields["@GetServiceHeaders"] = VList{Key: "sh", Elems: []Val{cHeader("x-request-id", "integer", "", true)}}
+		run := c.W.NewRun(map[string]int{}, false)
+		run.InlineAll, run.FollowSlices = true, true
+		run.CallHook = c.cdescHook
+		run.Units = []*Unit{{}}
+		run.StartArgs(fn, map[string]Val{"service": svc})
+		pos := c.P.Pos(c.P.Decls[fn].Pos())
+		if len(run.Used) > 0 {
+			r.Undec("R09g", "header getters on a concrete service", pos, fmt.Sprintf("open decisions %v", usedKeys(run)))
+		} else {
+			text := ""
+			for _, u := range run.Units {
+				for _, l := range u.Lines {
+					text += lineText(l.Segs) + "\n"
+				}
+			}
+			// the body of getGetItemHeaders
+			body := ""
+			if i := strings.Index(text, "func getGetItemHeaders()"); i >= 0 {
+				body = text[i:]
+				if j := strings.Index(body, "\n}\n"); j >= 0 {
+					body = body[:j]
+				}
+			}
+			has := func(n string) bool { return strings.Contains(body, `Name: "`+n+`"`) }
+			r.Check(has("X-Request-ID") && has("X-Zq-Extra"), "R09g", "method headers are all emitted (one repeats a service header's name in another case, with another type)", pos,
+				fmt.Sprintf("service header x-request-id (integer) and method headers X-Request-ID (string, uuid), X-Zq-Extra: get<Method>Headers() lists X-Request-ID=%v X-Zq-Extra=%v — a method header that is not emitted cannot override the service header, so the route validates against the service-level type and format", has("X-Request-ID"), has("X-Zq-Extra")))
+			r.Check(strings.Contains(text, "func getListItemsHeaders()") && strings.Contains(text, `Name: "x-request-id"`), "R09g", "service headers and a getter for every method are emitted", pos,
+				"the getter of a method without headers or the service header literal is missing")
+		}
+	} else {
+		r.Unres("R09g", "generateHeaderGetters", "", "not found")
+	}
+	// R09h
+	if fn := c.P.Func(pkgTSServer, "Generator.generateHeaderValidation"); fn != nil {
+		pos := c.P.Pos(c.P.Decls[fn].Pos())
+		for _, typ := range []string{"", "string", "String", "integer", "number", "boolean"} {
+			run := c.W.NewRun(map[string]int{}, false)
+			run.InlineAll, run.FollowSlices, run.AmbientPrinter = true, true, true
+			run.CallHook = c.cdescHook
+			run.StartArgs(fn, map[string]Val{"serviceHeaders": VList{Key: "sh", Elems: []Val{cHeader("X-Trace-ID", typ, "uuid", true)}}, "methodHeaders": VList{Key: "mh", Elems: []Val{}}})
+			key := fmt.Sprintf("declared type %q with format uuid", typ)
+			if len(run.Used) > 0 {
+				r.Undec("R09h", key, pos, fmt.Sprintf("open decisions %v", usedKeys(run)))
+				continue
+			}
+			line := ""
+			for _, u := range run.Units {
+				for _, l := range u.Lines {
+					if t := lineText(l.Segs); strings.Contains(t, `name: "X-Trace-ID"`) {
+						line = t
+					}
+				}
+			}
+			r.Check(strings.Contains(line, `format: "uuid"`), "R09h", key, pos,
+				fmt.Sprintf("for a header declared with type %q and format uuid the TS route configuration is %q: the format is not handed to validateHeaders, so a malformed value is dispatched although the Go server (which treats this type as a string) and the OpenAPI parameter reject it", typ, strings.TrimSpace(line)))
+		}
+	} else {
+		r.Unres("R09h", "generateHeaderValidation", "", "not found")
+	}
 }
